@@ -248,6 +248,10 @@ def spec_from_recipe(rc: dict) -> dict:
             spec[f"e{k}"] = (tag * 7 + 3 + k).astype(np.int32)
         else:
             spec[f"e{k}"] = (tag * 0.25 + 0.5 + k).astype(np.float32)
+    if rc.get("big_extra"):
+        # a per-node 64-bit label (segment ids of a connectome, nanosecond time stamps): values that
+        # no float64 holds exactly
+        spec["e9"] = tag.astype(np.int64) * 3 + (2**60 + 1)
     if int(rc.get("extras", 0)) >= 2 and int(rc["seed"]) % 3 == 0:
         # a per-node column kept twice under two names (e.g. a raw and a working copy)
         spec["e1"] = spec["e0"].copy()
